@@ -222,6 +222,9 @@ func Check(env *core.Env, rep *core.Report) *core.Result {
 		repoInfo = map[string]interface{}{"executions_recorded": total, "accepted": accepted, "outside_trace_spec_shape": skippedEx, "note": rnote}
 	}
 
+	// the statement's own example on the real TaskRunner (one task name shared by the stages)
+	realBarrierRuns := RealBarrier(env, rep, map[bool]int{false: 1, true: 10}[thorough])
+
 	// whole-binary executions against the composed specification Taskctl.tla
 	nBin := 40
 	if thorough {
@@ -249,6 +252,7 @@ func Check(env *core.Env, rep *core.Report) *core.Result {
 		"distinct_lockstep_cases":                 distinct.N(),
 		"binding_selftest":                        selftest,
 		"repository_tests_as_trace_sources":       repoInfo,
+		"real_runner_barrier_pipelines":           realBarrierRuns,
 		"whole_binary_traces_against_Taskctl_tla": composeInfo,
 		"samples":                                 samples.List(),
 		"checker_cmds":                            cmds,
